@@ -22,6 +22,7 @@ import (
 	"github.com/idena-network/idena-go/common"
 	"github.com/idena-network/idena-go/config"
 	"github.com/idena-network/idena-go/core/appstate"
+	"github.com/idena-network/idena-go/core/state"
 	"github.com/idena-network/idena-go/stats/collector"
 	"github.com/shopspring/decimal"
 
@@ -221,6 +222,25 @@ func c04run(c *hx.Ctx, cs c04case) error {
 		}
 		h.Height = int(blk.Height())
 		after := n.Ledger()
+		// the ordering the proofs rely on (LInv: locked <= replenished <= stake) on the real state
+		n.App.State.IterateOverIdentities(func(a common.Address, id state.Identity) {
+			z := func(x *big.Int) *big.Int {
+				if x == nil {
+					return new(big.Int)
+				}
+				return x
+			}
+			st, lk, rp := z(id.Stake), z(id.LockedStake()), z(id.ReplenishedStake())
+			if lk.Cmp(rp) > 0 || rp.Cmp(st) > 0 {
+				fail("C04:stake-parts-order", fmt.Sprintf("after block %d: identity %s stake %s replenished %s locked %s", blk.Height(), a.Hex(), st, rp, lk))
+			}
+			if rp.Sign() > 0 {
+				c.Hit("identity-with-replenished-stake(block-samples)")
+			}
+			if lk.Sign() > 0 {
+				c.Hit("identity-with-locked-stake(block-samples)")
+			}
+		})
 		vf := blk.Header.Flags().HasFlag(types.ValidationFinished)
 		epochLen := "-"
 		bound := new(big.Int)
